@@ -55,7 +55,7 @@ func raClass(kind string) string {
 		return "decl"
 	case "flitres", "conv":
 		return "funcexpr"
-	case "import":
+	case "import", "package":
 		return "import"
 	}
 	return "stmt"
@@ -165,7 +165,7 @@ func runRearrange() {
 					isFE := func(k string) bool { return k == "flitres" || k == "conv" }
 					sig := ""
 					for _, v := range invs {
-						if c.Script[v.i].Kind == "import" {
+						if k := c.Script[v.i].Kind; k == "import" || k == "package" {
 							sig = "order:func-hoisted-above-import"
 						}
 					}
